@@ -52,6 +52,11 @@ CLAIMED = {
    note="Bounds: <=2 chromosomes x <=3 markers (thorough: up to (3,2),(4)), positions symbolic; interp1d is a piecewise-linear model validated against scipy on path models; transcendental functions by axioms; exact reals.",
    technique="symbolic execution on z3-term arrays (symnp) + z3 (QF_NRA + uninterpreted functions with instantiated axioms); contract model of scipy interp1d; replay on real numpy/scipy",
    design="2/C11"),
+   "C15": dict(
+   text="Bounded symbolic model checking of the real DenseBreedingValueMatrix (and EBV/GEBV subclasses) and DenseScaledMatrix: from_numpy/unscale/t* summaries and every taxa-axis operation run on symbolic raw values (constant columns reached by forking on scale==0, missing values at enumerated cells); z3 proves unscale()==raw cell-wise, every unscale=True summary equal to the summary of the raw column, retained taxa keep raw values and labels under select/delete/insert/adjoin, NaN cells stay NaN and nothing else becomes NaN, transform/untransform/in-place unscale round-trip. The inherited concat/append/incorp/remove methods ignore location/scale: reported as KNOWN-FINDING from its witness and excluded by call site only.",
+   note="Bounds: taxa<=3 (4), traits<=2, one structural operation; exact reals (float cancellation for large offsets is outside); sqrt by contract; extrema claimed for NaN-free columns.",
+   technique="symbolic execution on z3-term arrays (symnp) + z3 (QF_NRA) per-path obligations, replay on real numpy",
+   design="2/C15"),
 }
 NA = {}
 for pid in props:
